@@ -128,6 +128,12 @@ impl<T: Elem + SatisfyTraits<Tr>, M: MX, Tr: TrX + ?Sized> World<T, M, Tr> {
             let n = crate::track::with_ts(|ts| ts.as_mut_since(serial0));
             if n == 0 { out.fail(Class::Mem, "written-through-read-accessor", format!("clone() filled a new storage with {len} elements without ever calling its Mem::as_mut_ptr")); }
         }
+        // a stateful builder is CLONED for the new vector (its Clone may hand out another arena), never duplicated bitwise
+        if M::STATEFUL_BUILDER && r.is_ok() {
+            let src_b = crate::track::builder_of(0);
+            let end = crate::track::with_ts(|ts| ts.next_serial());
+            for s in serial0..end { if crate::track::builder_of(s).is_some() && crate::track::builder_of(s) == src_b { out.fail(Class::Mem, "builder-not-cloned", format!("the clone's storage #{s} was built by the SOURCE's builder (identity {:?}): MemBuilder::clone was bypassed", src_b)); } }
+        }
         // storage is requested once per vector: one clone() = one MemBuilder::build
         if matches!(M::KIND, crate::caps::BK::Track | crate::caps::BK::TrackFixed) && r.is_ok() {
             let built = crate::track::with_ts(|ts| ts.next_serial()) - serial0;
